@@ -2038,6 +2038,11 @@ class Cluster(object):
         self.profile_manager.on_add(host)
         self.control_connection.on_add(host, refresh_nodes)
 
+        if self.metadata.get_host(host.endpoint) is not host:
+            # the node list refresh above found that the host has left the cluster
+            log.debug("New host %r is no longer part of the cluster, not adding it", host)
+            return
+
         if distance == HostDistance.IGNORED:
             log.debug("Not adding connection pool for new host %r because the "
                       "load balancing policy has marked it as IGNORED", host)
